@@ -110,6 +110,4 @@ impl HeuristicSearchOperator for CompositeHeuristicOperator {
 
 /// Verification hook: re-exports crate-private search utilities (removal tracker, tabu list, selection helpers).
 #[cfg(reinterpretcat_vrp_verif)]
-pub mod verif {
-    pub use super::utils::*;
-}
+pub use self::utils::verif;
